@@ -665,7 +665,13 @@ class Learner1D(BaseLearner):
         self.neighbors_combined = _get_neighbors_from_array(points_combined)
 
         # Update scale
-        self._bbox[0] = [points_combined.min(), points_combined.max()]
+        # the x-extent never shrinks below the domain: `tell` starts from the bounds
+        # too, and the sort key of the loss containers must use the same x-scale
+        # as `_loss` does later on
+        self._bbox[0] = [
+            min(self.bounds[0], points_combined.min()),
+            max(self.bounds[1], points_combined.max()),
+        ]
         self._bbox[1] = [values.min(axis=0), values.max(axis=0)]
         self._scale[0] = self._bbox[0][1] - self._bbox[0][0]
         self._scale[1] = np.max(self._bbox[1][1] - self._bbox[1][0])
